@@ -2037,7 +2037,11 @@ func (v *VM) ContractHasTryBlock() bool {
 		}
 		for j := range ictx.tryStack.Len() {
 			eCtx := ictx.tryStack.Peek(j).Value().(*exceptionHandlingContext)
-			if eCtx.State == eTry {
+			// A TRY block catches exceptions; a CATCH block with FINALLY
+			// doesn't, but it still runs its FINALLY code after the callee's
+			// exception (see handleException), so the callee's changes must
+			// be isolated in both cases.
+			if eCtx.State == eTry || (eCtx.State == eCatch && eCtx.HasFinally()) {
 				return true
 			}
 		}
